@@ -39,6 +39,9 @@ class Builder:
         self.budget = budget
         self.kinds = {}
         self.in_rep = 0
+        self.plain = 0           # > 0: only say / local call / catch / raise / throw nodes
+        self.msg_used = False    # message() -> receive_message apply in t (one per program, fixed entry point)
+        self.tell_used = False   # tell_object() -> catch_tell apply in t
         self.vital_used = False  # one destruct of a vital object per program (fixed entry point mcreate)
         self.verb_used = False  # one command verb per program (fixed entry point gobody)
         self.nf_used = False  # one notify_fail() callback per program (fixed entry point nfbody)
@@ -87,7 +90,9 @@ class Builder:
         rng = self.rng
         main = fctx == "t"
         kinds = [("say", 6), ("lcall", 5), ("tmpcall", 3), ("ocall", 4), ("surplus", 2), ("fplocal", 3), ("functional", 3),
-                 ("efunp", 2), ("mapfp", 3), ("mapstr", 2), ("filterfp", 2), ("sortfp", 2), ("unique", 2), ("mapmap", 2), ("filtermap", 1), ("uniquemap", 2),
+                 ("efunp", 2), ("mapfp", 3), ("mapstr", 2), ("filterfp", 2), ("sortfp", 2), ("unique", 2), ("mapmap", 2), ("filtermap", 1), ("uniquemap", 2), ("mapstring", 2), ("implodefp", 2),
+                 ("message", 2 if main and not self.msg_used and not self.no_cg else 0),
+                 ("selfdestruct", 2 if main and not self.in_rep else 0),
                  ("catch", 7), ("raise", 3), ("throw", 2), ("safe", 3 if main and not self.in_safe else 0), ("setcg", 2 if main and self.use_setcg and not self.no_cg else 0),
                  ("install", 2 if main and not self.use_setcg else 0), ("installbad", 2 if main and not self.use_setcg else 0), ("load", 2 if main and not self.in_rep else 0),
                  ("clone", 2 if main else 0),
@@ -96,6 +101,8 @@ class Builder:
                  ("verbcmd", 3 if main and not self.no_cg and not self.verb_used and not self.in_rep else 0),
                  ("notifyfail", 3 if main and not self.no_cg and not self.nf_used and not self.in_rep else 0),
                  ("arity", 5), ("inithook", 3 if main and not self.in_rep else 0), ("dhook", 3 if main and not self.in_rep else 0)]
+        if self.plain:
+            kinds = [(n, w) for n, w in kinds if n in ("say", "lcall", "tmpcall", "catch", "raise", "throw")]
         k = rng.weighted(kinds)
         self.count(k)
         t = "t"
@@ -171,6 +178,47 @@ class Builder:
             f = self.fn(fctx, b, params="int x, int y", ret="int", tail="return x;")
             stmts.append("a = %s (([ 1 : 2 ]), (: %s :));" % ("map" if k == "mapmap" else "filter", f))
             ops.append("(tmp 3 (cb fplocal %s 2 2 %s))" % (t, " ".join(o)))
+        elif k == "mapstring":
+            # map over a string (lib/lpc/array.c map_string): one callback per character, the working copy is a C local
+            self.in_rep += 1
+            b, o = self.sub(fctx, depth)
+            self.in_rep -= 1
+            f = self.fn(fctx, b, params="int x", ret="int", tail="return x;")
+            stmts.append('s = map ("ab", (: %s :));' % f)
+            one = "(cb fplocal %s 1 1 %s)" % (t, " ".join(o))
+            ops.append("(tmp 3 %s %s)" % (one, one))
+        elif k == "implodefp":
+            # implode with a function (implode_array): f (accumulator, element), twice for three elements
+            self.in_rep += 1
+            b, o = self.sub(fctx, depth)
+            self.in_rep -= 1
+            f = self.fn(fctx, b, params="int x, int y", ret="int", tail="return x + y;")
+            stmts.append("a = implode (({ 1, 2, 3 }), (: %s :));" % f)
+            one = "(cb fplocal %s 2 2 %s)" % (t, " ".join(o))
+            ops.append("(tmp 3 %s %s)" % (one, one))
+        elif k == "message":
+            # message() -> do_message -> apply receive_message in the interactive user, which calls the generated body
+            self.msg_used = True
+            b, o = self.sub(fctx, depth)
+            f = self.fn(fctx, b)
+            self.files[fctx]["fns"].append("void msgbody () { %s (); }" % f)
+            stmts.append('message ("c", "hello", find_object ("/c05/user"));')
+            ops.append("(tmp 3 (cb other u1 2 2 (call other %s 0 0 (call local %s 0 0 %s))))" % (t, t, " ".join(o)))
+        elif k == "selfdestruct":
+            # an object destructs itself and goes on executing: the frames that are unwound (or returned through) belong to a
+            # destructed object
+            i = self.fresh()
+            name = "S%d" % i
+            self.files[name] = {"fns": [], "vname": [], "create": "", "extra": []}
+            self.plain += 1      # (function pointers of a destructed owner are refused by the driver: plain calls only)
+            b, o = self.sub(name, depth)
+            self.plain -= 1
+            f = self.fn(name, b)
+            path = "/c05/gen/%s" % name
+            self.files[name]["extra"] = ["void go () { destruct (this_object ()); %s (); }" % f]
+            self.prep.append('if (p0 = find_object ("%s")) destruct (p0); load_object ("%s");' % (path, path))
+            stmts.append('"%s"->go ();' % path)
+            ops.append("(call other %s 0 0 (call local %s 0 0 %s))" % (t, t, " ".join(o)))
         elif k == "uniquemap":
             # unique_mapping (lib/lpc/mapping.c): T_ERROR_HANDLER slot held across the callback
             b, o = self.sub(fctx, depth)
@@ -488,7 +536,7 @@ class C05(Prop):
                 "NV.C05.tie_context_fields_saved", "NV.C05.tie_every_field_saved_is_restored", "NV.C05.tie_context_globals",
                 "NV.C05.tie_frame_registers", "NV.C05.tie_frame_saved_is_restored", "NV.C05.tie_all_globals_classified",
                 "NV.C05.tie_classes_match_source", "NV.C05.tie_command_giver_stack", "NV.C05.tie_callback_handlers",
-                "NV.C05.tie_backend_shapes", "NV.C05.tie_catch_value_order", "NV.C05.tie_handler_flag", "NV.C05.tie_error_handler_slots", "NV.C05.tie_vital_destruct_order",
+                "NV.C05.tie_backend_shapes", "NV.C05.tie_catch_value_order", "NV.C05.tie_handler_flag", "NV.C05.tie_error_handler_slots", "NV.C05.tie_vital_destruct_order", "NV.C05.tie_error_handlers_are_leaves",
                 "NV.C05.vital_records_before_blanking", "NV.C05.vital_nested_refused", "NV.C05.popN_fixNames", "NV.C05.vitalFinish_good", "NV.C05.tie_handler_limit_state", "NV.C05.tie_hook_globals_apart", "NV.C05.raise_sets_catch_value_after_handler",
                 "NV.C05.driver_restores", "NV.C05.model_satisfies_spec_driver",
                 "NV.C05.backend_cycle_restores", "NV.C05.model_satisfies_spec_backend", "NV.C05.restoreContext_verb",
@@ -655,6 +703,7 @@ class C05(Prop):
     def gen_globals(self, bdir, body, need):
         import re
         import subprocess
+        from nvlib import extract as X
 
         def lst(xs):
             return "[" + ", ".join('"%s"' % x for x in xs) + "]"
@@ -861,6 +910,21 @@ class C05(Prop):
         slots = sorted(set(slots))
         out.append("/-- every `…->u.error_handler = f;` of the source: (file, handler) -/\n"
                    "def errorHandlerSlots : List (String × String) := %s" % pairs(slots))
+        # (8b) none of those handler functions calls back into LPC or raises an error (an error inside a handler that runs
+        #      while the stack is being unwound would re-enter the unwinding)
+        bad_handlers = []
+        for f, h in slots:
+            for root in ("src", "lib"):
+                for dp, dn, fn in os.walk(os.path.join(E.REPO, root)):
+                    if f in fn:
+                        try:
+                            hb = body(os.path.relpath(os.path.join(dp, f), E.REPO), h)
+                        except X.TieBroken:
+                            continue
+                        if prim.search(hb) or re.search(r"\berror\s*\(", hb):
+                            bad_handlers.append(h)
+        out.append("/-- handlers of T_ERROR_HANDLER slots that call back into LPC or raise an error -/\n"
+                   "def errorHandlersThatCallBack : List String := %s" % lst(sorted(set(bad_handlers))))
         # (9) destruct_object of a vital object: slot pushed and both names recorded BEFORE the name is blanked; the handler
         #     restores both names; the two by-hand back-outs restore the name and drop the slot before raising
         dob = body("src/simulate.c", "destruct_object")
